@@ -317,29 +317,49 @@ Proof.
   cbn [andb orb Z.eqb]. rewrite T_out. reflexivity.
 Qed.
 
+Definition abi_kw (a : bool) : kw := if a then K_stdcall else K_cdecl.
+
+Lemma parens_group_abi f i o a :
+  K i = KChar c_lpar -> K (S i) = KKw (abi_kw a) -> K (S (S i)) = KChar c_star ->
+  parens osz cx (S f) (T i o) PRes 0%Z None 1%Z =
+  bind (bind (write_ds osz (T (S (S i)) o) (OP OP_NOOP 0)) (fun '(t3, _) =>
+          bind (parse_sequel osz cx f t3 (Z.of_nat (List.length o))) (fun '(t4, x') =>
+            Ok (t4, POut (Z.of_nat (List.length o)), OP (GETOP 0) x', Some (abi_kw a)))))
+       (fun '(t9, pc9, result9, abi9) =>
+          if negb (is_ch t9 c_rpar) then parse_error t9 E_rparen
+          else parens osz cx f (next_token t9) pc9 result9 abi9 (1 - 1)%Z).
+Proof.
+  intros H0 H1 H2. cbn [parens]. unfold is_ch at 1. rewrite (kind_T _ _ L), H0. cbn [kind_eqb].
+  rewrite N.eqb_refl. rewrite T_next. rewrite (kind_T _ _ L), H1.
+  destruct a; cbn [abi_kw]; rewrite T_next;
+    unfold is_ch, is_kw; rewrite (kind_T _ _ L), H2; cbn [kind_eqb]; rewrite N.eqb_refl;
+    cbn [andb orb Z.eqb]; rewrite T_out; reflexivity.
+Qed.
+
 Lemma set_nth_app_mid : forall (a : list Z) x y z v, set_nth (a ++ [x; y; z]) (S (List.length a)) v = a ++ [x; v; z].
 Proof. induction a as [|h a IH]; intros; cbn; [reflexivity|]. f_equal. apply IH. Qed.
 
 (* a parameter list "( )" or "( void )": OP_FUNCTION, OP_FUNCTION_END and one spare slot *)
-Lemma parens_func0 f i o pc result cfg (void : bool) :
+Lemma parens_func0 f i o pc result (abi : option kw) cfg (void : bool) :
   K i = KChar c_lpar ->
   (if void then K (S i) = KKw K_void /\ K (S (S i)) = KChar c_rpar else K (S i) = KChar c_rpar) ->
   pc_ok o pc -> List.length o + 3 <= osz ->
-  parens osz cx (S f) (T i o) pc result None cfg =
+  let flags := match abi with Some K_stdcall => 2%Z | _ => 0%Z end in
+  parens osz cx (S f) (T i o) pc result abi cfg =
   parens osz cx f (T ((if void then 3 else 2) + i)
                      (fst (retarget_pure o pc result (Z.of_nat (List.length o)))
-                        ++ [OP OP_FUNCTION 0; OP OP_FUNCTION_END 0; OP 0 0]))
+                        ++ [OP OP_FUNCTION 0; OP OP_FUNCTION_END flags; OP 0 0]))
          (POut (Z.of_nat (List.length o))) (snd (retarget_pure o pc result (Z.of_nat (List.length o))))
          None (cfg - 1).
 Proof.
-  intros H0 Hv Hpc Hroom. cbn [parens]. unfold is_ch at 1. rewrite (kind_T _ _ L), H0. cbn [kind_eqb].
+  intros H0 Hv Hpc Hroom flags. cbn [parens]. unfold is_ch at 1. rewrite (kind_T _ _ L), H0. cbn [kind_eqb].
   rewrite N.eqb_refl. rewrite T_next.
   pose proof (retarget_pure_length o pc result (Z.of_nat (List.length o))) as Hl1.
   set (o1 := fst (retarget_pure o pc result (Z.of_nat (List.length o)))) in *.
   set (r1 := snd (retarget_pure o pc result (Z.of_nat (List.length o)))) in *.
   assert (Hset : forall j, set_out (T j (((o1 ++ [OP OP_FUNCTION 0]) ++ [OP 0 0]) ++ [OP 0 0]))
-                   (Z.of_nat (List.length o1) + 1) (OP OP_FUNCTION_END 0) =
-                 Ok (T j (o1 ++ [OP OP_FUNCTION 0; OP OP_FUNCTION_END 0; OP 0 0]))).
+                   (Z.of_nat (List.length o1) + 1) (OP OP_FUNCTION_END flags) =
+                 Ok (T j (o1 ++ [OP OP_FUNCTION 0; OP OP_FUNCTION_END flags; OP 0 0]))).
   { intros j. unfold set_out. rewrite T_out.
     assert (E : ((0 <=? Z.of_nat (List.length o1) + 1)%Z &&
                  (Z.of_nat (List.length o1) + 1 <? Z.of_nat (List.length (((o1 ++ [OP OP_FUNCTION 0]) ++ [OP 0 0]) ++ [OP 0 0])))%Z)%bool = true).
@@ -378,7 +398,7 @@ Proof. intros [->|[->|[->| ->]]] A x y; reflexivity. Qed.
 Lemma sdecl_first_star d : sdecl gl d -> starts_star d = true ->
   exists rest, sdecl_toks d = (KChar c_star, [c_star]) :: rest.
 Proof.
-  intros Hd Hs. destruct Hd as [hdr arrays _ _|hdr arrays d' _ _ _ _|hdr d' void _ _ _];
+  intros Hd Hs. destruct Hd as [hdr arrays _ _|hdr arrays d' _ _ _ _|hdr d' abi void _ _ _];
     (destruct hdr as [|[|q|a] hdr]; cbn in Hs; try discriminate; cbn; eexists; reflexivity).
 Qed.
 
@@ -392,7 +412,7 @@ Theorem sequel_run : forall d, sdecl gl d -> forall f i o outer,
     (forall out'', agree out'' o' (List.length o) (List.length o') ->
        forall m n, decodes g n out'' outer m -> decodes g (n + cost d) out'' idx (apply_decl gl d m)).
 Proof.
-  induction 1 as [hdr arrays Hh Ha | hdr arrays d' Hh Ha Hd' IH Hst | hdr d' void Hh Hd' IH Hst];
+  induction 1 as [hdr arrays Hh Ha | hdr arrays d' Hh Ha Hd' IH Hst | hdr d' abi void Hh Hd' IH Hst];
     intros f i o outer Hat Hfin Hroom Hf.
   - (* no grouping *)
     unfold ntoks in *. cbn [sdecl_toks nops cost apply_decl fold_right] in *.
@@ -566,123 +586,361 @@ Proof.
     match goal with |- decodes _ ?k _ _ _ =>
       replace k with (n + (nstars hdr + (S (cost d') + List.length arrays))) by lia end.
     apply Has2; assumption.
-  - (* grouping parentheses followed by an empty parameter list *)
-    set (nf := if void then 3 else 2).
-    assert (Hnt : ntoks (D hdr None (Some (None, d')) [F [] void false] []) =
-                  List.length hdr + (S (ntoks d' + 1) + nf)).
-    { unfold ntoks, nf. cbn [sdecl_toks map List.concat fs_toks]. rewrite ?app_length, map_length.
-      destruct void; cbn [List.length app]; rewrite ?app_length; cbn [List.length]; lia. }
-    rewrite Hnt in *. clear Hnt. unfold ntoks in *.
-    cbn [sdecl_toks nops cost apply_decl fold_right map List.concat fs_toks] in Hat, Hroom |- *.
-    rewrite ?app_nil_r in Hat.
-    apply At_app in Hat as [Hat1 Hat2]. rewrite map_length in Hat2.
-    apply At_app in Hat2 as [Hat2 Hat3].
-    apply At_cons in Hat2 as [Hlp Hat2]. apply At_app in Hat2 as [Hin Hrp].
-    apply At_cons in Hrp as [Hrp _].
-    cbn [List.length app] in Hat3. rewrite app_length in Hat3. cbn [List.length] in Hat3.
-    set (nd := List.length (sdecl_toks d')) in *.
-    set (p := i + List.length hdr) in *.
-    destruct f as [|f]; [lia|]. rewrite parse_sequel_S.
-    assert (HK0 : K p = KChar c_lpar) by (rewrite (At_K _ _ _ Hlp); reflexivity).
-    assert (Hstop1 : stopper (K p)) by (rewrite HK0; unfold stopper; auto).
-    rewrite (header_run osz input toks L hdr f i o outer None); auto; try lia.
-    2:{ intros j Hj. rewrite map_length in Hj. specialize (Hat1 j). rewrite map_length in Hat1.
-        specialize (Hat1 Hj). rewrite nth_error_map in Hat1.
-        destruct (nth_error hdr j) eqn:E; [|apply nth_error_None in E; lia].
-        cbn in Hat1. rewrite (At_K _ _ _ Hat1). cbn.
-        rewrite (nth_indep _ KEnd (hkind h)) by (rewrite map_length; lia). rewrite map_nth.
-        f_equal. symmetry. apply nth_error_nth. exact E. }
-    cbn [bind]. fold p. rewrite (kind_T _ _ L). rewrite stopper_not_ident by exact Hstop1.
-    destruct f as [|f]; [unfold nf in Hf; destruct void; lia|].
-    destruct (sdecl_first_star d' Hd' Hst) as [rest Efirst].
-    assert (HK1 : K (S p) = KChar c_star).
-    { rewrite Efirst in Hin. apply At_cons in Hin as [H0 _]. rewrite (At_K _ _ _ H0). reflexivity. }
-    pose proof (hdr_out_length hdr o outer) as Hlh.
-    destruct (hdr_out hdr o outer) as [oh outer1] eqn:Eh. cbn [fst snd] in *.
-    rewrite (parens_group f p oh HK0 HK1).
-    rewrite (write_ds_ok osz input) by lia. cbn [bind].
-    destruct (IH f (S p) (oh ++ [OP OP_NOOP 0]) (Z.of_nat (List.length oh))) as (og & x' & Hrun & Hlg & Hpg & Hsg).
-    { exact Hin. }
-    { right. match goal with |- Parse.K _ ?e = _ => replace e with (S p + nd) by (subst nd p; lia) end.
-      rewrite (At_K _ _ _ Hrp). reflexivity. }
-    { rewrite app_length. cbn [List.length]. lia. }
-    { fold nd. unfold nf in Hf. destruct void; lia. }
-    fold nd in Hrun. rewrite Hrun. cbn [bind].
-    assert (HKr : K (S p + nd) = KChar c_rpar).
-    { rewrite (At_K _ _ _ Hrp). reflexivity. }
-    unfold is_ch at 1. rewrite (kind_T _ _ L), HKr. cbn [kind_eqb]. rewrite N.eqb_refl. cbn [negb].
-    rewrite T_next.
-    set (q := S (S p + nd)) in *.
-    replace (p + S (nd + 1)) with q in Hat3 by (subst q; lia).
-    assert (Hxlt : List.length oh < List.length og) by (rewrite Hlg, app_length; cbn; lia).
-    destruct f as [|f]; [unfold nf in Hf; destruct void; lia|].
-    assert (Hfk : K q = KChar c_lpar /\
-                  (if void then K (S q) = KKw K_void /\ K (S (S q)) = KChar c_rpar else K (S q) = KChar c_rpar)).
-    { apply At_cons in Hat3 as [Ha0 Hat3]. split; [rewrite (At_K _ _ _ Ha0); reflexivity|].
-      destruct void; cbn [app] in Hat3.
-      - apply At_cons in Hat3 as [Ha1 Hat3]. apply At_cons in Hat3 as [Ha2 _].
-        rewrite (At_K _ _ _ Ha1), (At_K _ _ _ Ha2). split; reflexivity.
-      - apply At_cons in Hat3 as [Ha1 _]. rewrite (At_K _ _ _ Ha1). reflexivity. }
-    destruct Hfk as [Hq0 Hq1].
-    assert (Hroom3 : List.length og + 3 <= osz).
-    { rewrite Hlg, app_length. cbn [List.length list_sum map fold_right Nat.mul] in *. lia. }
-    rewrite (parens_func0 f q og (POut (Z.of_nat (List.length oh))) (OP (GETOP 0) x') (1 - 1)%Z void Hq0 Hq1)
-      by (first [exact Hroom3 | cbn; lia]).
-    fold nf.
-    assert (Hend : final_stop (K (nf + q))).
-    { replace (nf + q) with (i + (List.length hdr + (S (nd + 1) + nf))) by (subst q p; lia). exact Hfin. }
-    destruct f as [|f]; [unfold nf in Hf; destruct void; lia|].
-    rewrite parens_stop by (unfold is_ch; rewrite (kind_T _ _ L); destruct Hend as [->| ->]; reflexivity).
-    cbn [bind].
-    set (oi := Z.of_nat (List.length og)) in *.
-    set (o1 := fst (retarget_pure og (POut (Z.of_nat (List.length oh))) (OP (GETOP 0) x') oi)) in *.
-    set (r1 := snd (retarget_pure og (POut (Z.of_nat (List.length oh))) (OP (GETOP 0) x') oi)) in *.
-    set (of := o1 ++ [OP OP_FUNCTION 0; OP OP_FUNCTION_END 0; OP 0 0]) in *.
-    assert (Hl1 : List.length o1 = List.length og) by apply retarget_pure_length.
-    assert (Hlof : List.length of = List.length og + 3) by (unfold of; rewrite app_length, Hl1; reflexivity).
-    assert (Hpcf : pc_ok of (POut oi)) by (unfold pc_ok; rewrite Hlof; unfold oi; lia).
-    rewrite (brackets_run osz cx input toks L Hgl [] (S (S (S f))) (nf + q) of (POut oi) r1).
-    2:{ intros j Hj. cbn in Hj. lia. }
-    2:{ constructor. }
-    2:{ cbn [map List.concat List.length]. rewrite Nat.add_0_r. destruct Hend as [->| ->]; discriminate. }
-    2:{ exact Hpcf. }
-    2:{ cbn [map list_sum fold_right]. lia. }
-    2:{ cbn [List.length]. lia. }
-    cbn [map List.concat List.length finish_arrays fst snd bind]. rewrite Nat.add_0_r.
-    rewrite retarget_ok by exact Hpcf. cbn [bind].
-    assert (Hnoop : nth_error og (List.length oh) = Some (OP OP_NOOP 0)).
-    { rewrite Hpg by (rewrite app_length; cbn; lia). rewrite nth_error_app2 by lia.
-      rewrite Nat.sub_diag. reflexivity. }
-    assert (HS0 : HoleSem g (List.length o) og (POut (Z.of_nat (List.length oh))) (OP (GETOP 0) x')
-                          (apply_decl gl d') (S (cost d'))).
-    { apply HoleSem_group; auto; try lia.
-      intros out'' Hag m n Hm. apply Hsg; [|exact Hm].
-      rewrite app_length. cbn [List.length]. replace (List.length oh + 1) with (S (List.length oh)) by lia.
-      exact Hag. }
-    pose proof (HoleSem_func0 g (List.length o) og (POut (Z.of_nat (List.length oh))) (OP (GETOP 0) x')
-                  _ _ 0%Z HS0 ltac:(cbn; lia) ltac:(lia) ltac:(left; reflexivity)) as HS.
-    cbv zeta in HS. fold oi o1 r1 of in HS.
-    eexists. eexists. split.
-    { replace (i + (List.length hdr + (S (nd + 1) + nf))) with (nf + q) by (subst q p; lia). reflexivity. }
-    split; [rewrite retarget_pure_length, Hlof, Hlg, app_length; cbn [List.length list_sum map fold_right]; lia|].
-    assert (Eoh : oh = fst (hdr_out hdr o outer)) by (rewrite Eh; reflexivity).
-    assert (Eo1 : outer1 = snd (hdr_out hdr o outer)) by (rewrite Eh; reflexivity).
-    rewrite Eo1.
-    pose proof (assemble g hdr o outer of (POut oi) r1 _ _ HS) as Has.
-    rewrite <- Eoh in Has. cbv zeta in Has.
-    assert (P1 : List.length oh <= List.length of) by lia.
-    assert (P2 : forall j, j < List.length oh -> nth_error of j = nth_error oh j).
-    { intros j Hj. unfold of. rewrite nth_error_app1 by lia. unfold o1. cbn [retarget_pure fst].
-      rewrite set_nth_other by (rewrite Nat2Z.id; lia).
-      rewrite Hpg by (rewrite app_length; cbn; lia). apply nth_error_app1. exact Hj. }
-    assert (P3 : POut oi = PRes \/ exists x, POut oi = POut x /\ (Z.of_nat (List.length oh) <= x)%Z).
-    { right. exists oi. split; [reflexivity | unfold oi; lia]. }
-    destruct (Has P1 P2 P3) as [Has1 Has2].
-    split; [exact Has1|].
-    intros out'' Hag m n Hm.
-    match goal with |- decodes _ ?k _ _ _ =>
-      replace k with (n + (nstars hdr + (S (S (cost d'))))) by lia end.
-    apply Has2; assumption.
+  - (* grouping parentheses (with or without __cdecl/__stdcall) followed by an empty parameter list *)
+    destruct abi as [[|]|].
+    + (* __stdcall *)
+      set (nf := if void then 3 else 2).
+      assert (Hnt : ntoks (D hdr None (Some (Some true, d')) [F [] void false] []) =
+                    List.length hdr + (S (S (ntoks d' + 1)) + nf)).
+      { unfold ntoks, nf. cbn [sdecl_toks map List.concat fs_toks]. rewrite ?app_length, map_length.
+        destruct void; cbn [List.length app]; rewrite ?app_length; cbn [List.length]; lia. }
+      rewrite Hnt in *. clear Hnt. unfold ntoks in *.
+      cbn [sdecl_toks nops cost apply_decl fold_right map List.concat fs_toks] in Hat, Hroom |- *.
+      rewrite ?app_nil_r in Hat.
+      apply At_app in Hat as [Hat1 Hat2]. rewrite map_length in Hat2.
+      apply At_app in Hat2 as [Hat2 Hat3].
+      apply At_cons in Hat2 as [Hlp Hat2]. apply At_cons in Hat2 as [Habi Hat2]. apply At_app in Hat2 as [Hin Hrp].
+      apply At_cons in Hrp as [Hrp _].
+      cbn [List.length app] in Hat3. rewrite app_length in Hat3. cbn [List.length] in Hat3.
+      set (nd := List.length (sdecl_toks d')) in *.
+      set (p := i + List.length hdr) in *.
+      destruct f as [|f]; [lia|]. rewrite parse_sequel_S.
+      assert (HK0 : K p = KChar c_lpar) by (rewrite (At_K _ _ _ Hlp); reflexivity).
+      assert (Hstop1 : stopper (K p)) by (rewrite HK0; unfold stopper; auto).
+      rewrite (header_run osz input toks L hdr f i o outer None); auto; try lia.
+      2:{ intros j Hj. rewrite map_length in Hj. specialize (Hat1 j). rewrite map_length in Hat1.
+          specialize (Hat1 Hj). rewrite nth_error_map in Hat1.
+          destruct (nth_error hdr j) eqn:E; [|apply nth_error_None in E; lia].
+          cbn in Hat1. rewrite (At_K _ _ _ Hat1). cbn.
+          rewrite (nth_indep _ KEnd (hkind h)) by (rewrite map_length; lia). rewrite map_nth.
+          f_equal. symmetry. apply nth_error_nth. exact E. }
+      cbn [bind]. fold p. rewrite (kind_T _ _ L). rewrite stopper_not_ident by exact Hstop1.
+      destruct f as [|f]; [unfold nf in Hf; destruct void; lia|].
+      destruct (sdecl_first_star d' Hd' Hst) as [rest Efirst].
+      assert (HK1 : K (S (S p)) = KChar c_star).
+      { rewrite Efirst in Hin. apply At_cons in Hin as [H0 _]. rewrite (At_K _ _ _ H0). reflexivity. }
+      pose proof (hdr_out_length hdr o outer) as Hlh.
+      destruct (hdr_out hdr o outer) as [oh outer1] eqn:Eh. cbn [fst snd] in *.
+      assert (HKa : K (S p) = KKw (abi_kw true)) by (rewrite (At_K _ _ _ Habi); reflexivity).
+      rewrite (parens_group_abi f p oh true HK0 HKa HK1). cbn [abi_kw].
+      rewrite (write_ds_ok osz input) by lia. cbn [bind].
+      destruct (IH f (S (S p)) (oh ++ [OP OP_NOOP 0]) (Z.of_nat (List.length oh))) as (og & x' & Hrun & Hlg & Hpg & Hsg).
+      { exact Hin. }
+      { right. match goal with |- Parse.K _ ?e = _ => replace e with (S (S p) + nd) by (subst nd p; lia) end.
+        rewrite (At_K _ _ _ Hrp). reflexivity. }
+      { rewrite app_length. cbn [List.length]. lia. }
+      { fold nd. unfold nf in Hf. destruct void; lia. }
+      fold nd in Hrun. rewrite Hrun. cbn [bind].
+      assert (HKr : K (S (S p) + nd) = KChar c_rpar).
+      { rewrite (At_K _ _ _ Hrp). reflexivity. }
+      unfold is_ch at 1. rewrite (kind_T _ _ L), HKr. cbn [kind_eqb]. rewrite N.eqb_refl. cbn [negb].
+      rewrite T_next.
+      set (q := S (S (S p) + nd)) in *.
+      replace (p + S (S (nd + 1))) with q in Hat3 by (subst q; lia).
+      assert (Hxlt : List.length oh < List.length og) by (rewrite Hlg, app_length; cbn; lia).
+      destruct f as [|f]; [unfold nf in Hf; destruct void; lia|].
+      assert (Hfk : K q = KChar c_lpar /\
+                    (if void then K (S q) = KKw K_void /\ K (S (S q)) = KChar c_rpar else K (S q) = KChar c_rpar)).
+      { apply At_cons in Hat3 as [Ha0 Hat3]. split; [rewrite (At_K _ _ _ Ha0); reflexivity|].
+        destruct void; cbn [app] in Hat3.
+        - apply At_cons in Hat3 as [Ha1 Hat3]. apply At_cons in Hat3 as [Ha2 _].
+          rewrite (At_K _ _ _ Ha1), (At_K _ _ _ Ha2). split; reflexivity.
+        - apply At_cons in Hat3 as [Ha1 _]. rewrite (At_K _ _ _ Ha1). reflexivity. }
+      destruct Hfk as [Hq0 Hq1].
+      assert (Hroom3 : List.length og + 3 <= osz).
+      { rewrite Hlg, app_length. cbn [List.length list_sum map fold_right Nat.mul] in *. lia. }
+      rewrite (parens_func0 f q og (POut (Z.of_nat (List.length oh))) (OP (GETOP 0) x') (Some K_stdcall) (1 - 1)%Z void Hq0 Hq1)
+        by (first [exact Hroom3 | cbn; lia]).
+      cbv iota zeta. fold nf.
+      assert (Hend : final_stop (K (nf + q))).
+      { replace (nf + q) with (i + (List.length hdr + (S (S (nd + 1)) + nf))) by (subst q p; lia). exact Hfin. }
+      destruct f as [|f]; [unfold nf in Hf; destruct void; lia|].
+      rewrite parens_stop by (unfold is_ch; rewrite (kind_T _ _ L); destruct Hend as [->| ->]; reflexivity).
+      cbn [bind].
+      set (oi := Z.of_nat (List.length og)) in *.
+      set (o1 := fst (retarget_pure og (POut (Z.of_nat (List.length oh))) (OP (GETOP 0) x') oi)) in *.
+      set (r1 := snd (retarget_pure og (POut (Z.of_nat (List.length oh))) (OP (GETOP 0) x') oi)) in *.
+      set (of := o1 ++ [OP OP_FUNCTION 0; OP OP_FUNCTION_END 2%Z; OP 0 0]) in *.
+      assert (Hl1 : List.length o1 = List.length og) by apply retarget_pure_length.
+      assert (Hlof : List.length of = List.length og + 3) by (unfold of; rewrite app_length, Hl1; reflexivity).
+      assert (Hpcf : pc_ok of (POut oi)) by (unfold pc_ok; rewrite Hlof; unfold oi; lia).
+      rewrite (brackets_run osz cx input toks L Hgl [] (S (S (S f))) (nf + q) of (POut oi) r1).
+      2:{ intros j Hj. cbn in Hj. lia. }
+      2:{ constructor. }
+      2:{ cbn [map List.concat List.length]. rewrite Nat.add_0_r. destruct Hend as [->| ->]; discriminate. }
+      2:{ exact Hpcf. }
+      2:{ cbn [map list_sum fold_right]. lia. }
+      2:{ cbn [List.length]. lia. }
+      cbn [map List.concat List.length finish_arrays fst snd bind]. rewrite Nat.add_0_r.
+      rewrite retarget_ok by exact Hpcf. cbn [bind].
+      assert (Hnoop : nth_error og (List.length oh) = Some (OP OP_NOOP 0)).
+      { rewrite Hpg by (rewrite app_length; cbn; lia). rewrite nth_error_app2 by lia.
+        rewrite Nat.sub_diag. reflexivity. }
+      assert (HS0 : HoleSem g (List.length o) og (POut (Z.of_nat (List.length oh))) (OP (GETOP 0) x')
+                            (apply_decl gl d') (S (cost d'))).
+      { apply HoleSem_group; auto; try lia.
+        intros out'' Hag m n Hm. apply Hsg; [|exact Hm].
+        rewrite app_length. cbn [List.length]. replace (List.length oh + 1) with (S (List.length oh)) by lia.
+        exact Hag. }
+      pose proof (HoleSem_func0 g (List.length o) og (POut (Z.of_nat (List.length oh))) (OP (GETOP 0) x')
+                    _ _ 2%Z HS0 ltac:(cbn; lia) ltac:(lia) ltac:(right; reflexivity)) as HS.
+      cbv zeta in HS. fold oi o1 r1 of in HS.
+      eexists. eexists. split.
+      { replace (i + (List.length hdr + (S (S (nd + 1)) + nf))) with (nf + q) by (subst q p; lia). reflexivity. }
+      split; [rewrite retarget_pure_length, Hlof, Hlg, app_length; cbn [List.length list_sum map fold_right]; lia|].
+      assert (Eoh : oh = fst (hdr_out hdr o outer)) by (rewrite Eh; reflexivity).
+      assert (Eo1 : outer1 = snd (hdr_out hdr o outer)) by (rewrite Eh; reflexivity).
+      rewrite Eo1.
+      pose proof (assemble g hdr o outer of (POut oi) r1 _ _ HS) as Has.
+      rewrite <- Eoh in Has. cbv zeta in Has.
+      assert (P1 : List.length oh <= List.length of) by lia.
+      assert (P2 : forall j, j < List.length oh -> nth_error of j = nth_error oh j).
+      { intros j Hj. unfold of. rewrite nth_error_app1 by lia. unfold o1. cbn [retarget_pure fst].
+        rewrite set_nth_other by (rewrite Nat2Z.id; lia).
+        rewrite Hpg by (rewrite app_length; cbn; lia). apply nth_error_app1. exact Hj. }
+      assert (P3 : POut oi = PRes \/ exists x, POut oi = POut x /\ (Z.of_nat (List.length oh) <= x)%Z).
+      { right. exists oi. split; [reflexivity | unfold oi; lia]. }
+      destruct (Has P1 P2 P3) as [Has1 Has2].
+      split; [exact Has1|].
+      intros out'' Hag m n Hm.
+      match goal with |- decodes _ ?k _ _ _ =>
+        replace k with (n + (nstars hdr + (S (S (cost d'))))) by lia end.
+      apply Has2; assumption.
+    + (* __cdecl *)
+      set (nf := if void then 3 else 2).
+      assert (Hnt : ntoks (D hdr None (Some (Some false, d')) [F [] void false] []) =
+                    List.length hdr + (S (S (ntoks d' + 1)) + nf)).
+      { unfold ntoks, nf. cbn [sdecl_toks map List.concat fs_toks]. rewrite ?app_length, map_length.
+        destruct void; cbn [List.length app]; rewrite ?app_length; cbn [List.length]; lia. }
+      rewrite Hnt in *. clear Hnt. unfold ntoks in *.
+      cbn [sdecl_toks nops cost apply_decl fold_right map List.concat fs_toks] in Hat, Hroom |- *.
+      rewrite ?app_nil_r in Hat.
+      apply At_app in Hat as [Hat1 Hat2]. rewrite map_length in Hat2.
+      apply At_app in Hat2 as [Hat2 Hat3].
+      apply At_cons in Hat2 as [Hlp Hat2]. apply At_cons in Hat2 as [Habi Hat2]. apply At_app in Hat2 as [Hin Hrp].
+      apply At_cons in Hrp as [Hrp _].
+      cbn [List.length app] in Hat3. rewrite app_length in Hat3. cbn [List.length] in Hat3.
+      set (nd := List.length (sdecl_toks d')) in *.
+      set (p := i + List.length hdr) in *.
+      destruct f as [|f]; [lia|]. rewrite parse_sequel_S.
+      assert (HK0 : K p = KChar c_lpar) by (rewrite (At_K _ _ _ Hlp); reflexivity).
+      assert (Hstop1 : stopper (K p)) by (rewrite HK0; unfold stopper; auto).
+      rewrite (header_run osz input toks L hdr f i o outer None); auto; try lia.
+      2:{ intros j Hj. rewrite map_length in Hj. specialize (Hat1 j). rewrite map_length in Hat1.
+          specialize (Hat1 Hj). rewrite nth_error_map in Hat1.
+          destruct (nth_error hdr j) eqn:E; [|apply nth_error_None in E; lia].
+          cbn in Hat1. rewrite (At_K _ _ _ Hat1). cbn.
+          rewrite (nth_indep _ KEnd (hkind h)) by (rewrite map_length; lia). rewrite map_nth.
+          f_equal. symmetry. apply nth_error_nth. exact E. }
+      cbn [bind]. fold p. rewrite (kind_T _ _ L). rewrite stopper_not_ident by exact Hstop1.
+      destruct f as [|f]; [unfold nf in Hf; destruct void; lia|].
+      destruct (sdecl_first_star d' Hd' Hst) as [rest Efirst].
+      assert (HK1 : K (S (S p)) = KChar c_star).
+      { rewrite Efirst in Hin. apply At_cons in Hin as [H0 _]. rewrite (At_K _ _ _ H0). reflexivity. }
+      pose proof (hdr_out_length hdr o outer) as Hlh.
+      destruct (hdr_out hdr o outer) as [oh outer1] eqn:Eh. cbn [fst snd] in *.
+      assert (HKa : K (S p) = KKw (abi_kw false)) by (rewrite (At_K _ _ _ Habi); reflexivity).
+      rewrite (parens_group_abi f p oh false HK0 HKa HK1). cbn [abi_kw].
+      rewrite (write_ds_ok osz input) by lia. cbn [bind].
+      destruct (IH f (S (S p)) (oh ++ [OP OP_NOOP 0]) (Z.of_nat (List.length oh))) as (og & x' & Hrun & Hlg & Hpg & Hsg).
+      { exact Hin. }
+      { right. match goal with |- Parse.K _ ?e = _ => replace e with (S (S p) + nd) by (subst nd p; lia) end.
+        rewrite (At_K _ _ _ Hrp). reflexivity. }
+      { rewrite app_length. cbn [List.length]. lia. }
+      { fold nd. unfold nf in Hf. destruct void; lia. }
+      fold nd in Hrun. rewrite Hrun. cbn [bind].
+      assert (HKr : K (S (S p) + nd) = KChar c_rpar).
+      { rewrite (At_K _ _ _ Hrp). reflexivity. }
+      unfold is_ch at 1. rewrite (kind_T _ _ L), HKr. cbn [kind_eqb]. rewrite N.eqb_refl. cbn [negb].
+      rewrite T_next.
+      set (q := S (S (S p) + nd)) in *.
+      replace (p + S (S (nd + 1))) with q in Hat3 by (subst q; lia).
+      assert (Hxlt : List.length oh < List.length og) by (rewrite Hlg, app_length; cbn; lia).
+      destruct f as [|f]; [unfold nf in Hf; destruct void; lia|].
+      assert (Hfk : K q = KChar c_lpar /\
+                    (if void then K (S q) = KKw K_void /\ K (S (S q)) = KChar c_rpar else K (S q) = KChar c_rpar)).
+      { apply At_cons in Hat3 as [Ha0 Hat3]. split; [rewrite (At_K _ _ _ Ha0); reflexivity|].
+        destruct void; cbn [app] in Hat3.
+        - apply At_cons in Hat3 as [Ha1 Hat3]. apply At_cons in Hat3 as [Ha2 _].
+          rewrite (At_K _ _ _ Ha1), (At_K _ _ _ Ha2). split; reflexivity.
+        - apply At_cons in Hat3 as [Ha1 _]. rewrite (At_K _ _ _ Ha1). reflexivity. }
+      destruct Hfk as [Hq0 Hq1].
+      assert (Hroom3 : List.length og + 3 <= osz).
+      { rewrite Hlg, app_length. cbn [List.length list_sum map fold_right Nat.mul] in *. lia. }
+      rewrite (parens_func0 f q og (POut (Z.of_nat (List.length oh))) (OP (GETOP 0) x') (Some K_cdecl) (1 - 1)%Z void Hq0 Hq1)
+        by (first [exact Hroom3 | cbn; lia]).
+      cbv iota zeta. fold nf.
+      assert (Hend : final_stop (K (nf + q))).
+      { replace (nf + q) with (i + (List.length hdr + (S (S (nd + 1)) + nf))) by (subst q p; lia). exact Hfin. }
+      destruct f as [|f]; [unfold nf in Hf; destruct void; lia|].
+      rewrite parens_stop by (unfold is_ch; rewrite (kind_T _ _ L); destruct Hend as [->| ->]; reflexivity).
+      cbn [bind].
+      set (oi := Z.of_nat (List.length og)) in *.
+      set (o1 := fst (retarget_pure og (POut (Z.of_nat (List.length oh))) (OP (GETOP 0) x') oi)) in *.
+      set (r1 := snd (retarget_pure og (POut (Z.of_nat (List.length oh))) (OP (GETOP 0) x') oi)) in *.
+      set (of := o1 ++ [OP OP_FUNCTION 0; OP OP_FUNCTION_END 0%Z; OP 0 0]) in *.
+      assert (Hl1 : List.length o1 = List.length og) by apply retarget_pure_length.
+      assert (Hlof : List.length of = List.length og + 3) by (unfold of; rewrite app_length, Hl1; reflexivity).
+      assert (Hpcf : pc_ok of (POut oi)) by (unfold pc_ok; rewrite Hlof; unfold oi; lia).
+      rewrite (brackets_run osz cx input toks L Hgl [] (S (S (S f))) (nf + q) of (POut oi) r1).
+      2:{ intros j Hj. cbn in Hj. lia. }
+      2:{ constructor. }
+      2:{ cbn [map List.concat List.length]. rewrite Nat.add_0_r. destruct Hend as [->| ->]; discriminate. }
+      2:{ exact Hpcf. }
+      2:{ cbn [map list_sum fold_right]. lia. }
+      2:{ cbn [List.length]. lia. }
+      cbn [map List.concat List.length finish_arrays fst snd bind]. rewrite Nat.add_0_r.
+      rewrite retarget_ok by exact Hpcf. cbn [bind].
+      assert (Hnoop : nth_error og (List.length oh) = Some (OP OP_NOOP 0)).
+      { rewrite Hpg by (rewrite app_length; cbn; lia). rewrite nth_error_app2 by lia.
+        rewrite Nat.sub_diag. reflexivity. }
+      assert (HS0 : HoleSem g (List.length o) og (POut (Z.of_nat (List.length oh))) (OP (GETOP 0) x')
+                            (apply_decl gl d') (S (cost d'))).
+      { apply HoleSem_group; auto; try lia.
+        intros out'' Hag m n Hm. apply Hsg; [|exact Hm].
+        rewrite app_length. cbn [List.length]. replace (List.length oh + 1) with (S (List.length oh)) by lia.
+        exact Hag. }
+      pose proof (HoleSem_func0 g (List.length o) og (POut (Z.of_nat (List.length oh))) (OP (GETOP 0) x')
+                    _ _ 0%Z HS0 ltac:(cbn; lia) ltac:(lia) ltac:(left; reflexivity)) as HS.
+      cbv zeta in HS. fold oi o1 r1 of in HS.
+      eexists. eexists. split.
+      { replace (i + (List.length hdr + (S (S (nd + 1)) + nf))) with (nf + q) by (subst q p; lia). reflexivity. }
+      split; [rewrite retarget_pure_length, Hlof, Hlg, app_length; cbn [List.length list_sum map fold_right]; lia|].
+      assert (Eoh : oh = fst (hdr_out hdr o outer)) by (rewrite Eh; reflexivity).
+      assert (Eo1 : outer1 = snd (hdr_out hdr o outer)) by (rewrite Eh; reflexivity).
+      rewrite Eo1.
+      pose proof (assemble g hdr o outer of (POut oi) r1 _ _ HS) as Has.
+      rewrite <- Eoh in Has. cbv zeta in Has.
+      assert (P1 : List.length oh <= List.length of) by lia.
+      assert (P2 : forall j, j < List.length oh -> nth_error of j = nth_error oh j).
+      { intros j Hj. unfold of. rewrite nth_error_app1 by lia. unfold o1. cbn [retarget_pure fst].
+        rewrite set_nth_other by (rewrite Nat2Z.id; lia).
+        rewrite Hpg by (rewrite app_length; cbn; lia). apply nth_error_app1. exact Hj. }
+      assert (P3 : POut oi = PRes \/ exists x, POut oi = POut x /\ (Z.of_nat (List.length oh) <= x)%Z).
+      { right. exists oi. split; [reflexivity | unfold oi; lia]. }
+      destruct (Has P1 P2 P3) as [Has1 Has2].
+      split; [exact Has1|].
+      intros out'' Hag m n Hm.
+      match goal with |- decodes _ ?k _ _ _ =>
+        replace k with (n + (nstars hdr + (S (S (cost d'))))) by lia end.
+      apply Has2; assumption.
+    + (* no keyword *)
+      set (nf := if void then 3 else 2).
+      assert (Hnt : ntoks (D hdr None (Some (None, d')) [F [] void false] []) =
+                    List.length hdr + (S (ntoks d' + 1) + nf)).
+      { unfold ntoks, nf. cbn [sdecl_toks map List.concat fs_toks]. rewrite ?app_length, map_length.
+        destruct void; cbn [List.length app]; rewrite ?app_length; cbn [List.length]; lia. }
+      rewrite Hnt in *. clear Hnt. unfold ntoks in *.
+      cbn [sdecl_toks nops cost apply_decl fold_right map List.concat fs_toks] in Hat, Hroom |- *.
+      rewrite ?app_nil_r in Hat.
+      apply At_app in Hat as [Hat1 Hat2]. rewrite map_length in Hat2.
+      apply At_app in Hat2 as [Hat2 Hat3].
+      apply At_cons in Hat2 as [Hlp Hat2]. apply At_app in Hat2 as [Hin Hrp].
+      apply At_cons in Hrp as [Hrp _].
+      cbn [List.length app] in Hat3. rewrite app_length in Hat3. cbn [List.length] in Hat3.
+      set (nd := List.length (sdecl_toks d')) in *.
+      set (p := i + List.length hdr) in *.
+      destruct f as [|f]; [lia|]. rewrite parse_sequel_S.
+      assert (HK0 : K p = KChar c_lpar) by (rewrite (At_K _ _ _ Hlp); reflexivity).
+      assert (Hstop1 : stopper (K p)) by (rewrite HK0; unfold stopper; auto).
+      rewrite (header_run osz input toks L hdr f i o outer None); auto; try lia.
+      2:{ intros j Hj. rewrite map_length in Hj. specialize (Hat1 j). rewrite map_length in Hat1.
+          specialize (Hat1 Hj). rewrite nth_error_map in Hat1.
+          destruct (nth_error hdr j) eqn:E; [|apply nth_error_None in E; lia].
+          cbn in Hat1. rewrite (At_K _ _ _ Hat1). cbn.
+          rewrite (nth_indep _ KEnd (hkind h)) by (rewrite map_length; lia). rewrite map_nth.
+          f_equal. symmetry. apply nth_error_nth. exact E. }
+      cbn [bind]. fold p. rewrite (kind_T _ _ L). rewrite stopper_not_ident by exact Hstop1.
+      destruct f as [|f]; [unfold nf in Hf; destruct void; lia|].
+      destruct (sdecl_first_star d' Hd' Hst) as [rest Efirst].
+      assert (HK1 : K (S p) = KChar c_star).
+      { rewrite Efirst in Hin. apply At_cons in Hin as [H0 _]. rewrite (At_K _ _ _ H0). reflexivity. }
+      pose proof (hdr_out_length hdr o outer) as Hlh.
+      destruct (hdr_out hdr o outer) as [oh outer1] eqn:Eh. cbn [fst snd] in *.
+      rewrite (parens_group f p oh HK0 HK1).
+      rewrite (write_ds_ok osz input) by lia. cbn [bind].
+      destruct (IH f (S p) (oh ++ [OP OP_NOOP 0]) (Z.of_nat (List.length oh))) as (og & x' & Hrun & Hlg & Hpg & Hsg).
+      { exact Hin. }
+      { right. match goal with |- Parse.K _ ?e = _ => replace e with (S p + nd) by (subst nd p; lia) end.
+        rewrite (At_K _ _ _ Hrp). reflexivity. }
+      { rewrite app_length. cbn [List.length]. lia. }
+      { fold nd. unfold nf in Hf. destruct void; lia. }
+      fold nd in Hrun. rewrite Hrun. cbn [bind].
+      assert (HKr : K (S p + nd) = KChar c_rpar).
+      { rewrite (At_K _ _ _ Hrp). reflexivity. }
+      unfold is_ch at 1. rewrite (kind_T _ _ L), HKr. cbn [kind_eqb]. rewrite N.eqb_refl. cbn [negb].
+      rewrite T_next.
+      set (q := S (S p + nd)) in *.
+      replace (p + S (nd + 1)) with q in Hat3 by (subst q; lia).
+      assert (Hxlt : List.length oh < List.length og) by (rewrite Hlg, app_length; cbn; lia).
+      destruct f as [|f]; [unfold nf in Hf; destruct void; lia|].
+      assert (Hfk : K q = KChar c_lpar /\
+                    (if void then K (S q) = KKw K_void /\ K (S (S q)) = KChar c_rpar else K (S q) = KChar c_rpar)).
+      { apply At_cons in Hat3 as [Ha0 Hat3]. split; [rewrite (At_K _ _ _ Ha0); reflexivity|].
+        destruct void; cbn [app] in Hat3.
+        - apply At_cons in Hat3 as [Ha1 Hat3]. apply At_cons in Hat3 as [Ha2 _].
+          rewrite (At_K _ _ _ Ha1), (At_K _ _ _ Ha2). split; reflexivity.
+        - apply At_cons in Hat3 as [Ha1 _]. rewrite (At_K _ _ _ Ha1). reflexivity. }
+      destruct Hfk as [Hq0 Hq1].
+      assert (Hroom3 : List.length og + 3 <= osz).
+      { rewrite Hlg, app_length. cbn [List.length list_sum map fold_right Nat.mul] in *. lia. }
+      rewrite (parens_func0 f q og (POut (Z.of_nat (List.length oh))) (OP (GETOP 0) x') None (1 - 1)%Z void Hq0 Hq1)
+        by (first [exact Hroom3 | cbn; lia]).
+      cbv iota zeta. fold nf.
+      assert (Hend : final_stop (K (nf + q))).
+      { replace (nf + q) with (i + (List.length hdr + (S (nd + 1) + nf))) by (subst q p; lia). exact Hfin. }
+      destruct f as [|f]; [unfold nf in Hf; destruct void; lia|].
+      rewrite parens_stop by (unfold is_ch; rewrite (kind_T _ _ L); destruct Hend as [->| ->]; reflexivity).
+      cbn [bind].
+      set (oi := Z.of_nat (List.length og)) in *.
+      set (o1 := fst (retarget_pure og (POut (Z.of_nat (List.length oh))) (OP (GETOP 0) x') oi)) in *.
+      set (r1 := snd (retarget_pure og (POut (Z.of_nat (List.length oh))) (OP (GETOP 0) x') oi)) in *.
+      set (of := o1 ++ [OP OP_FUNCTION 0; OP OP_FUNCTION_END 0%Z; OP 0 0]) in *.
+      assert (Hl1 : List.length o1 = List.length og) by apply retarget_pure_length.
+      assert (Hlof : List.length of = List.length og + 3) by (unfold of; rewrite app_length, Hl1; reflexivity).
+      assert (Hpcf : pc_ok of (POut oi)) by (unfold pc_ok; rewrite Hlof; unfold oi; lia).
+      rewrite (brackets_run osz cx input toks L Hgl [] (S (S (S f))) (nf + q) of (POut oi) r1).
+      2:{ intros j Hj. cbn in Hj. lia. }
+      2:{ constructor. }
+      2:{ cbn [map List.concat List.length]. rewrite Nat.add_0_r. destruct Hend as [->| ->]; discriminate. }
+      2:{ exact Hpcf. }
+      2:{ cbn [map list_sum fold_right]. lia. }
+      2:{ cbn [List.length]. lia. }
+      cbn [map List.concat List.length finish_arrays fst snd bind]. rewrite Nat.add_0_r.
+      rewrite retarget_ok by exact Hpcf. cbn [bind].
+      assert (Hnoop : nth_error og (List.length oh) = Some (OP OP_NOOP 0)).
+      { rewrite Hpg by (rewrite app_length; cbn; lia). rewrite nth_error_app2 by lia.
+        rewrite Nat.sub_diag. reflexivity. }
+      assert (HS0 : HoleSem g (List.length o) og (POut (Z.of_nat (List.length oh))) (OP (GETOP 0) x')
+                            (apply_decl gl d') (S (cost d'))).
+      { apply HoleSem_group; auto; try lia.
+        intros out'' Hag m n Hm. apply Hsg; [|exact Hm].
+        rewrite app_length. cbn [List.length]. replace (List.length oh + 1) with (S (List.length oh)) by lia.
+        exact Hag. }
+      pose proof (HoleSem_func0 g (List.length o) og (POut (Z.of_nat (List.length oh))) (OP (GETOP 0) x')
+                    _ _ 0%Z HS0 ltac:(cbn; lia) ltac:(lia) ltac:(left; reflexivity)) as HS.
+      cbv zeta in HS. fold oi o1 r1 of in HS.
+      eexists. eexists. split.
+      { replace (i + (List.length hdr + (S (nd + 1) + nf))) with (nf + q) by (subst q p; lia). reflexivity. }
+      split; [rewrite retarget_pure_length, Hlof, Hlg, app_length; cbn [List.length list_sum map fold_right]; lia|].
+      assert (Eoh : oh = fst (hdr_out hdr o outer)) by (rewrite Eh; reflexivity).
+      assert (Eo1 : outer1 = snd (hdr_out hdr o outer)) by (rewrite Eh; reflexivity).
+      rewrite Eo1.
+      pose proof (assemble g hdr o outer of (POut oi) r1 _ _ HS) as Has.
+      rewrite <- Eoh in Has. cbv zeta in Has.
+      assert (P1 : List.length oh <= List.length of) by lia.
+      assert (P2 : forall j, j < List.length oh -> nth_error of j = nth_error oh j).
+      { intros j Hj. unfold of. rewrite nth_error_app1 by lia. unfold o1. cbn [retarget_pure fst].
+        rewrite set_nth_other by (rewrite Nat2Z.id; lia).
+        rewrite Hpg by (rewrite app_length; cbn; lia). apply nth_error_app1. exact Hj. }
+      assert (P3 : POut oi = PRes \/ exists x, POut oi = POut x /\ (Z.of_nat (List.length oh) <= x)%Z).
+      { right. exists oi. split; [reflexivity | unfold oi; lia]. }
+      destruct (Has P1 P2 P3) as [Has1 Has2].
+      split; [exact Has1|].
+      intros out'' Hag m n Hm.
+      match goal with |- decodes _ ?k _ _ _ =>
+        replace k with (n + (nstars hdr + (S (S (cost d'))))) by lia end.
+      apply Has2; assumption.
 Qed.
 
 End Run2.
